@@ -741,7 +741,7 @@ Lemma step_R6 c m progs cs tid th t rest sb so a :
   let ts := get_ts (sh_st (cs_sh cs)) (t_id t) in
   let r := reader_of ts in
   let off := if sb =? b_id a then so else 0 in
-  let ts1 := if true && (off =? 0)
+  let ts1 := if true && (off =? 0) && (0 <? b_used a)
              then let '(r', p) := should_persist m r true in
                   let ts' := with_reader ts r' in
                   if p then persist ts' true (b_id a) 0 else ts'
@@ -755,7 +755,7 @@ Proof.
   destruct Hwin as (W0 & W1 & W2 & W3 & W4). fold (rawts cs (t_id t)) in ts. fold ts r in W1, W2, W3, W4.
   (* the update as a function of the topic state *)
   set (f := fun x : tstate =>
-              if true && (off =? 0)
+              if true && (off =? 0) && (0 <? b_used a)
               then let '(r', p) := should_persist m r true in
                    let ts' := with_reader x r' in
                    if p then persist ts' true (b_id a) 0 else ts'
@@ -768,7 +768,7 @@ Proof.
                    r_idx (reader_of (f ts)) = r_idx r /\ r_chain (reader_of (f ts)) = r_chain r /\
                    r_tail_bid (reader_of (f ts)) = r_tail_bid r /\ r_tail_off (reader_of (f ts)) = r_tail_off r /\
                    hyd (f ts) /\ ts_writer (f ts) = ts_writer ts).
-  { unfold f. destruct (true && (off =? 0)).
+  { unfold f. destruct (true && (off =? 0) && (0 <? b_used a)).
     - destruct (should_persist m r true) as [r' p] eqn:Esp. cbn zeta in Hin.
       destruct Hin as (I1 & I2 & I3 & I4 & I5 & I6 & I7 & I8 & I9 & I10).
       pose proof (should_persist_same m r true) as Hs. rewrite Esp in Hs. destruct Hs as (F1 & F2 & F3 & F4 & F5 & F6).
@@ -779,7 +779,7 @@ Proof.
   destruct Hfacts as (Q1 & Q2 & Q3 & G1 & G2 & G3 & G4 & G5 & G6).
   rewrite Hf.
   apply (step_R_quiet c progs cs tid th t rest (PR_t_init a off) f SC Hinv Hth Htodo).
-  - intros x w. unfold f. destruct (true && (off =? 0)); [|reflexivity].
+  - intros x w. unfold f. destruct (true && (off =? 0) && (0 <? b_used a)); [|reflexivity].
     destruct (should_persist m r true) as [r' p]. destruct p; reflexivity.
   - split; [exact Q1|split; [exact Q2|exact Q3]].
   - exact G5.
